@@ -36,6 +36,7 @@ def T := Iodata.Gen.Layouts.tables
 def readFmt (fmt : String) (ls : List Str) : Option (Out RObj) :=
   match fmt with
   | "xyz" => some (Xyz.read T ls)
+  | "mol2" => some (Mol2.read ls)
   | "sdf" => some (Sdf.read T Iodata.Gen.Layouts.sdfL ls)
   | _ => none
 
